@@ -37,8 +37,15 @@ struct HandleOut {
 };
 struct HandleIn {
   std::vector<long long> table;
+  bool echo = false;                 // resolve every reference to a handle carrying the reference itself
+  long long fail_at = -1;            // the n-th resolution fails ...
+  nop::ErrorStatus fail_err = nop::ErrorStatus::IOError;  // ... with this error
+  std::vector<long long> seen;       // references presented, in order
   template <typename H>
   nop::Status<H> get(nop::HandleReference ref) {
+    seen.push_back(static_cast<long long>(ref));
+    if (static_cast<long long>(seen.size()) - 1 == fail_at) return fail_err;
+    if (echo) return H{static_cast<typename H::Type>(ref)};
     if (ref == nop::kEmptyHandleReference) return H{};
     if (ref >= 0 && static_cast<std::size_t>(ref) < table.size())
       return H{static_cast<typename H::Type>(table[static_cast<std::size_t>(ref)])};
